@@ -804,6 +804,11 @@ func runTree(r *ev.Run, id string, idx int) {
 		}
 	}
 
+	// ---- the same tree through a fetcher that fails one seeded fetch once (treefaults.go)
+	if nviol < 4 {
+		checkTreeAfterFault(r, rng, st, root, schemaBlobs, viol)
+	}
+
 	// ---- ForeachChunk over generated trees.  The documented contract (filereader.go):
 	// fn is never given a bytesRef part, and schemaPath leads from the root to the schema
 	// blob that holds the part.  When every bytesRef part of the tree spans its whole
